@@ -158,8 +158,11 @@ def post_dyn_add(ip, ctx, out):
     T2, S2 = self_.fields['_times'], self_.fields['_states']
     old_t, old_s = ctx['old_t'], ctx['old_s']
     ip.prove('dynlist/length', z3.And(T2.length == n + 1, S2.length == n + 1))
-    # the insertion position k chosen by the code
-    (seq, x, k), = ip.ghost['bisect']
+    # witness for "there is a position k ...": the position the code looked up first (for the time list)
+    calls = ip.ghost.get('bisect') or []
+    if not calls:
+        raise Unsupported('Dynamics.add no longer finds its insertion position by bisection: no witness for the alignment clauses')
+    seq, x, k = calls[0]
     i = fresh_int('i')
     for idx in (i - 1, i, i + 1, k - 1, k):
         ip.instantiate_universals(ctx['seq_t'], idx)
@@ -203,7 +206,8 @@ def targets(tier='quick'):
     R = Registry()
     for cls, meth in (('tempo.Tempo', '_time'), ('tempo.MeanFieldTempo', '_time'), ('pt_tebd.PtTebd', 'time')):
         T.append(Target('grid/label[%s]' % cls, cls + '.' + meth, scen_time(cls, meth), post_time, R, PROP))
-    T.append(Target('dynlist/add', 'dynamics.Dynamics.add', scen_dyn_add, post_dyn_add, R, PROP))
+    T.append(Target('dynlist/add', 'dynamics.Dynamics.add', scen_dyn_add, post_dyn_add, R, PROP,
+                    replay=lambda ob: {'func': 'dynamics_add', 'inputs': {'obligation': ob['name']}}))
     RT = tempo_sm.tempo_registry()
     T.append(Target('tempo/compute-times[fresh]', 'tempo.Tempo.compute', tempo_sm.tempo_scenario(True), post_tempo_times, RT, PROP))
     T.append(Target('tempo/compute-times[continue]', 'tempo.Tempo.compute', tempo_sm.tempo_scenario(False), post_tempo_times, RT, PROP))
